@@ -23,7 +23,7 @@ fn quantile_differential<const R: usize, const C: usize, const RC: usize>(layout
         vals[k] = pay[k] as i16;
         k += 1;
     }
-    let qarr = array![n64(0.3), n64(1.0), n64(0.5)];
+    let qarr = array![n64(0.3), n64(1.0)];
     arm_bulk_contract();
     let mut canon = parent2(&vals, R, C, 0, 0i16);
     let r0 = canon.quantiles_axis_mut(Axis(axis), &qarr, &Midpoint).unwrap();
@@ -42,25 +42,20 @@ fn quantile_differential<const R: usize, const C: usize, const RC: usize>(layout
         }
         i += 1;
     }
-    // dynamic dimensionality
-    let mut dynamic = parent2(&vals, R, C, 0, 0i16).into_dyn();
-    let r2 = dynamic.quantile_axis_mut(Axis(axis), n64(0.5), &Nearest).unwrap();
-    let mut stat = parent2(&vals, R, C, 0, 0i16);
-    let r3 = stat.quantile_axis_mut(Axis(axis), n64(0.5), &Nearest).unwrap();
-    assert!(r2.len() == r3.len());
-    let mut l = 0;
-    while l < r3.len() {
-        assert!(r2[[l]] == r3[l], "static vs dynamic dimensionality");
-        l += 1;
-    }
-    kani::cover!(r0[[0, 0]] != r0[[1, 0]], "W: non-constant result");
+    kani::cover!(pay[0] != pay[1] && pay[0] != pay[RC - 1], "W: non-constant data");
 }
 
-//@ prop=C20,C01:thorough tier=quick mem=10 timeout=3600 flags=modelmap uses=cut inst="quantiles_axis_mut(Axis(0)) on Array2<i16> 3x2: C-order owned vs stepped view vs into_dyn()" bounds="i8-range payloads, 3 requests; unwind 10"
+//@ prop=C20,C01:thorough tier=quick mem=10 timeout=3600 flags=modelmap uses=cut inst="quantiles_axis_mut(Axis(0), [0.3, 1.0], Midpoint) on Array2<i16> 3x2: C-order owned vs stepped view" bounds="i8-range payloads; unwind 10"
 #[kani::proof]
 #[kani::unwind(10)]
 fn c20_quantile_c_vs_stepped() {
     quantile_differential::<3, 2, 6>(2, 0);
+}
+//@ prop=C20,C01 tier=thorough mem=10 timeout=5400 flags=modelmap uses=cut inst="quantiles_axis_mut(Axis(1)) on Array2<i16> 2x3: C-order owned vs C-order rows reversed (contiguous)" bounds="i8-range payloads; unwind 10"
+#[kani::proof]
+#[kani::unwind(10)]
+fn c20_quantile_c_vs_crowrev() {
+    quantile_differential::<2, 3, 6>(5, 1);
 }
 //@ prop=C20,C01 tier=thorough mem=10 timeout=5400 flags=modelmap uses=cut inst="quantiles_axis_mut(Axis(1)) on Array2<i16> 2x3: C-order owned vs F-order rows reversed" bounds="i8-range payloads; unwind 10"
 #[kani::proof]
@@ -69,12 +64,52 @@ fn c20_quantile_c_vs_frev() {
     quantile_differential::<2, 3, 6>(4, 1);
 }
 
-/// Ownership and dimensionality: owned / view / shared / copy-on-write / dynamic, integer sums
-/// and extrema.
-//@ prop=C20,C06:thorough,C05:thorough tier=quick mem=8 timeout=3000 inst="mean, weighted_sum, argmin, min, count_eq on Array2<i32> 2x3: owned C-order vs ArcArray of the F-order copy vs CowArray of a stepped view vs ArrayD" bounds="all i8-range payloads; unwind 10"
+/// Static vs dynamic dimensionality on the quantile path.
+//@ prop=C20,C01:thorough tier=quick mem=8 timeout=3600 flags=modelmap uses=cut inst="quantile_axis_mut(Axis(0), 0.5, Nearest) on Array2<i16> 3x2 vs the same array into_dyn()" bounds="i8-range payloads; unwind 10"
 #[kani::proof]
 #[kani::unwind(10)]
-fn c20_ownership_dyn_i32() {
+fn c20_quantile_static_vs_dyn() {
+    let pay: [i8; 6] = kani::any();
+    let mut vals = [0i16; 6];
+    let mut k = 0;
+    while k < 6 {
+        vals[k] = pay[k] as i16;
+        k += 1;
+    }
+    arm_bulk_contract();
+    let mut dynamic = parent2(&vals, 3, 2, 0, 0i16).into_dyn();
+    let r2 = dynamic.quantile_axis_mut(Axis(0), n64(0.5), &Nearest).unwrap();
+    let mut stat = parent2(&vals, 3, 2, 0, 0i16);
+    let r3 = stat.quantile_axis_mut(Axis(0), n64(0.5), &Nearest).unwrap();
+    assert!(r2.len() == 2 && r3.len() == 2);
+    assert!(r2[[0]] == r3[0] && r2[[1]] == r3[1], "static vs dynamic dimensionality");
+    kani::cover!(pay[0] != pay[2] && pay[2] != pay[4], "W: non-constant lane");
+}
+
+/// Ownership: owned / shared / copy-on-write, integer sums and distances (2x2).
+//@ prop=C20,C06:thorough tier=quick mem=6 timeout=3000 inst="mean, weighted_sum, count_eq, l1_dist on Array2<i32> 2x2: owned C-order vs ArcArray of the F-order copy vs CowArray of a stepped view" bounds="all i8-range payloads; unwind 10"
+#[kani::proof]
+#[kani::unwind(10)]
+fn c20_ownership_sums_i32() {
+    let pay: [i8; 4] = kani::any();
+    let vals = [pay[0] as i32, pay[1] as i32, pay[2] as i32, pay[3] as i32];
+    let canon = parent2(&vals, 2, 2, 0, 0i32);
+    let shared: ArcArray<i32, Ix2> = parent2(&vals, 2, 2, 1, 0i32).into_shared();
+    let stepped_parent = parent2(&vals, 2, 2, 2, 7i32);
+    let cow: CowArray<'_, i32, Ix2> = CowArray::from(view2(&stepped_parent, 2));
+    let m = SummaryStatisticsExt::mean(&canon).unwrap();
+    assert!(SummaryStatisticsExt::mean(&shared) == Ok(m) && SummaryStatisticsExt::mean(&cow) == Ok(m), "mean");
+    assert!(canon.count_eq(&shared) == Ok(4) && shared.count_eq(&cow) == Ok(4) && cow.l1_dist(&canon) == Ok(0), "logically equal arrays have distance zero");
+    let ws0 = canon.weighted_sum(&canon).unwrap();
+    assert!(shared.weighted_sum(&shared) == Ok(ws0) && cow.weighted_sum(&cow) == Ok(ws0), "weighted_sum");
+    kani::cover!(pay[0] == 127 && pay[3] == -128, "W: extreme payloads");
+}
+
+/// Ownership and dimensionality: extrema (index-returning routines return LOGICAL indexes).
+//@ prop=C20,C05:thorough tier=quick mem=6 timeout=3000 inst="argmin / min on Array2<i32> 2x3: owned C-order vs ArcArray of the F-order copy vs ArrayD" bounds="all i8-range payloads; unwind 10"
+#[kani::proof]
+#[kani::unwind(10)]
+fn c20_ownership_extrema_i32() {
     let pay: [i8; 6] = kani::any();
     let mut vals = [0i32; 6];
     let mut k = 0;
@@ -84,21 +119,13 @@ fn c20_ownership_dyn_i32() {
     }
     let canon = parent2(&vals, 2, 3, 0, 0i32);
     let shared: ArcArray<i32, Ix2> = parent2(&vals, 2, 3, 1, 0i32).into_shared();
-    let stepped_parent = parent2(&vals, 2, 3, 2, 7i32);
-    let cow: CowArray<'_, i32, Ix2> = CowArray::from(view2(&stepped_parent, 2));
     let dynamic = canon.clone().into_dyn();
-    let m = SummaryStatisticsExt::mean(&canon).unwrap();
-    assert!(SummaryStatisticsExt::mean(&shared) == Ok(m) && SummaryStatisticsExt::mean(&cow) == Ok(m) && SummaryStatisticsExt::mean(&dynamic) == Ok(m), "mean");
     let (i, j) = canon.argmin().unwrap();
     let (i1, j1) = shared.argmin().unwrap();
-    let (i2, j2) = cow.argmin().unwrap();
     let d = dynamic.argmin().unwrap();
-    assert!(vals[i * 3 + j] == vals[i1 * 3 + j1] && vals[i * 3 + j] == vals[i2 * 3 + j2] && vals[i * 3 + j] == vals[d[0] * 3 + d[1]], "argmin designates an extremal element of the logical array");
-    assert!(canon.min() == shared.min() && canon.min() == cow.min(), "min");
-    assert!(canon.count_eq(&shared) == Ok(6) && shared.count_eq(&cow) == Ok(6) && cow.l1_dist(&canon) == Ok(0), "logically equal arrays have distance zero");
-    let ws0 = canon.weighted_sum(&canon).unwrap();
-    assert!(shared.weighted_sum(&shared) == Ok(ws0) && dynamic.weighted_sum(&dynamic) == Ok(ws0), "weighted_sum");
-    kani::cover!(vals[i * 3 + j] < 0 && (i, j) == (1, 2), "W: minimum in the last cell");
+    assert!(vals[i * 3 + j] == vals[i1 * 3 + j1] && vals[i * 3 + j] == vals[d[0] * 3 + d[1]], "argmin designates an extremal element of the logical array");
+    assert!(canon.min() == shared.min() && *canon.min().unwrap() == *dynamic.min().unwrap(), "min");
+    kani::cover!(pay[5] == -128 && pay[0] == 5, "W: minimum in the last cell");
 }
 
 /// NaN-skipping folds: static vs dynamic, C vs F-order rows reversed.
